@@ -155,7 +155,20 @@ def check_parse_order(ctx, led, v, rule="C05.order.parse"):
 
 def check_order_iter(ctx, led, v, rule="C05.order.iter"):
     """No sink (nor the constructor's computations) iterates the parsed map or reads the raw vector."""
-    om = get_model(ctx, v)
+    try:
+        om = get_model(ctx, v)
+    except AnalysisError as ex:
+        # the constructor could not be interpreted to the end; if it was seen iterating the parsed
+        # map in field order before that point, that alone is this rule's finding
+        hits = [e for e in getattr(ex, "partial_events", []) if e.kind == "input_order_iter"]
+        for e in hits[:2]:
+            led.violation(
+                rule,
+                "%s::%s" % (e.func.qualname if e.func else "?", short(e.node)),
+                e.where(),
+                "construction iterates the parsed metric map (%s): its order is the input's field order" % e.data.get("what"),
+            )
+        raise
     sinks = sink_values(ctx, v)
     n = 0
     for e in om.events(init_only=True):
